@@ -167,6 +167,9 @@ func obsJSON(res []obsT) []interface{} {
 func runEnc(prop string, seed uint64, tier, dir string) error {
 	runner := map[string]string{"C01": "check01", "C02": "check02", "C03": "check03", "C06": "check06", "C13": "check13"}[prop]
 	o := NewOut(dir, prop, 16, "From LOF Require Import Corr.Enc.", runner)
+	if prop == "C02" || prop == "C03" {
+		o.hyp = "thm_hyp"
+	}
 	rng := NewRng(seed)
 	g := NewG(rng)
 	n := 1200
